@@ -9,7 +9,7 @@ def run(ctx):
     if not ctx.translate():
         return
     ok = ctx.prove(MODULES, needs_gen=["KernelsCL"])
-    mism = ctx.kernel_diff("cl", 1500 if ctx.thorough() else 300)
+    mism = ctx.kernel_diff("cl", 6000 if ctx.thorough() else 300)
     if mism:
         ctx.fail("correspondence", "kernel differential (Go vs Lean: tick key bytes, in-range test, regenerated kernels)", str(mism[:3]),
                  replay={"kernel_mismatches": mism[:20]})
